@@ -21,6 +21,7 @@ import (
 	"io"
 	"os"
 	"path/filepath"
+	"regexp"
 	"sort"
 	"strconv"
 	"strings"
@@ -28,6 +29,8 @@ import (
 	"time"
 
 	"github.com/folbricht/desync"
+	"github.com/hanwen/go-fuse/v2/fs"
+	"github.com/hanwen/go-fuse/v2/fuse"
 
 	"vh/internal/vh"
 )
@@ -64,6 +67,10 @@ type c10Run struct {
 	cache   string
 	state   string
 	sf      *desync.SparseFile
+	mfs     *desync.SparseMountFS // kind "mount": the same loader behind the FUSE node of mount-sparse.go
+	raw     fuse.RawFileSystem
+	node    uint64
+	fhs     map[int]uint64
 	handles map[int]*desync.SparseFileHandle
 	queue   map[int][]c10Req
 	running map[int]chan struct{} // goroutine k running in the background: closed when its queue is done
@@ -79,6 +86,78 @@ type c10Run struct {
 	hung        bool
 	preloadWant int // store calls expected once the preload workers are finished
 	abandoned   map[int]bool
+}
+
+var errC10EIO = errors.New("EIO")
+
+// start creates the loader: directly, or (kind "mount") behind the FUSE file node driven through the raw bridge
+func (x *c10Run) start(opt desync.SparseFileOptions) error {
+	if x.c.Kind != "mount" {
+		sf, err := desync.NewSparseFile(x.cache, x.idx, x.st, opt)
+		x.sf = sf
+		return err
+	}
+	mfs, err := desync.NewSparseMountFS(x.idx, "blob", x.st, x.cache, opt)
+	if err != nil {
+		return err
+	}
+	x.mfs, x.raw, x.fhs = mfs, fs.NewNodeFS(mfs, &fs.Options{}), map[int]uint64{}
+	var eo fuse.EntryOut
+	if s := x.raw.Lookup(make(chan struct{}), &fuse.InHeader{NodeId: 1}, "blob", &eo); s != fuse.OK {
+		return fmt.Errorf("Lookup(blob) = %v", s)
+	}
+	x.node = eo.NodeId
+	return nil
+}
+
+func (x *c10Run) writeState() error {
+	if x.c.Kind == "mount" {
+		return x.mfs.WriteState()
+	}
+	return x.sf.WriteState()
+}
+
+// readAt is ReadAt on goroutine k's handle; through the mount it is the node's Read (EOF is folded into a short answer there)
+func (x *c10Run) readAt(k int, buf []byte, off int64) (int, error) {
+	if x.c.Kind != "mount" {
+		x.mu.Lock()
+		h := x.handles[k]
+		x.mu.Unlock()
+		if h == nil {
+			var err error
+			if h, err = x.sf.Open(); err != nil {
+				return 0, err
+			}
+			x.mu.Lock()
+			x.handles[k] = h
+			x.mu.Unlock()
+		}
+		return h.ReadAt(buf, off)
+	}
+	cancel := make(chan struct{})
+	x.mu.Lock()
+	fh, ok := x.fhs[k]
+	x.mu.Unlock()
+	if !ok {
+		var oo fuse.OpenOut
+		if s := x.raw.Open(cancel, &fuse.OpenIn{InHeader: fuse.InHeader{NodeId: x.node}}, &oo); s != fuse.OK {
+			return 0, fmt.Errorf("Open = %v", s)
+		}
+		fh = oo.Fh
+		x.mu.Lock()
+		x.fhs[k] = fh
+		x.mu.Unlock()
+	}
+	rr, s := x.raw.Read(cancel, &fuse.ReadIn{InHeader: fuse.InHeader{NodeId: x.node}, Fh: fh, Offset: uint64(off), Size: uint32(len(buf))}, buf)
+	if s != fuse.OK {
+		return 0, errC10EIO
+	}
+	data, _ := rr.Bytes(buf)
+	n := copy(buf, data)
+	if n < len(buf) {
+		return n, io.EOF
+	}
+	return n, nil
 }
 
 func (x *c10Run) fail(tok int, cls, what string) {
@@ -115,7 +194,7 @@ func (x *c10Run) exec(tok, k int, q c10Req) (ok bool) {
 		}
 	}()
 	if q.kind == "S" {
-		if err := x.sf.WriteState(); err != nil {
+		if err := x.writeState(); err != nil {
 			x.fail(tok, "sparse/writestate-error", err.Error())
 		}
 		x.mu.Lock()
@@ -124,28 +203,17 @@ func (x *c10Run) exec(tok, k int, q c10Req) (ok bool) {
 		x.addLog("S=D")
 		return true
 	}
-	x.mu.Lock()
-	h := x.handles[k]
-	x.mu.Unlock()
-	if h == nil {
-		var err error
-		h, err = x.sf.Open()
-		if err != nil {
-			x.fail(tok, "sparse/open-error", err.Error())
-			return true
-		}
-		x.mu.Lock()
-		x.handles[k] = h
-		x.mu.Unlock()
-	}
 	buf := make([]byte, q.ln)
 	for j := range buf {
 		buf[j] = 0xAA
 	}
 	_, f0 := x.st.counters()
-	n, err := h.ReadAt(buf, q.off)
+	n, err := x.readAt(k, buf, q.off)
 	_, f1 := x.st.counters()
 	ec := c09ErrClass(err)
+	if err == errC10EIO {
+		ec = "eio"
+	}
 	var ent string
 	if err == nil || err == io.EOF {
 		ent = fmt.Sprintf("R:%d:%d=%s:%s", q.off, q.ln, vh.Hex(buf[:n]), ec)
@@ -271,6 +339,11 @@ func (x *c10Run) restart(tok int, t string) error {
 	if parts[3] == "1" && haveState && parts[1] == "1" {
 		opt.StateInitFile = x.state
 		opt.StateInitConcurrency = 2
+		if len(x.c.Faults) > 0 {
+			// a fault is tied to a call number: keep the order of the preload fetches deterministic (index order, as in
+			// the oracle's round-robin drain); two workers are used when only missing chunks can fail
+			opt.StateInitConcurrency = 1
+		}
 	}
 	// how many preload fetches will happen: only if the state is not loaded directly
 	x.preloadWant = -1
@@ -283,14 +356,13 @@ func (x *c10Run) restart(tok int, t string) error {
 		calls, _ := x.st.counters()
 		x.preloadWant = calls + strings.Count(c10Bits(b, len(x.idx.Chunks)), "1")
 	}
-	sf, err := desync.NewSparseFile(x.cache, x.idx, x.st, opt)
+	err := x.start(opt)
 	if parts[1] == "0" && haveState {
 		os.Rename(hidden, x.state)
 	}
 	if err != nil {
 		return fmt.Errorf("NewSparseFile: %v", err)
 	}
-	x.sf = sf
 	return nil
 }
 
@@ -355,7 +427,7 @@ func c10Run1(a vh.Args, c *c10Case) (obs string, x *c10Run, err error) {
 	})
 	var runErr error
 	p, hung := c09Guarded(func() {
-		if x.sf, runErr = desync.NewSparseFile(x.cache, idx, st, desync.SparseFileOptions{StateSaveFile: x.state}); runErr != nil {
+		if runErr = x.start(desync.SparseFileOptions{StateSaveFile: x.state}); runErr != nil {
 			return
 		}
 		for ti, t := range c.Script {
@@ -542,12 +614,18 @@ func c10Check(a vh.Args, o *vh.Oracle, r *vh.Result, c *c10Case) error {
 		}
 		c.Model = ans
 		r.Corr()
-		if pa := c10Project(ans); pa != obs {
+		pa := c10Project(ans)
+		if c.Kind == "mount" {
+			pa = c10EIO.ReplaceAllString(pa, "=E:eio")
+		}
+		if pa != obs {
 			r.Fail("corr", "corr:C10/script", fmt.Sprintf("model and implementation differ: %s", c10Diff(pa, obs)), c)
 		}
 	}
 	return nil
 }
+
+var c10EIO = regexp.MustCompile(`=E:[a-z0-9]+`)
 
 func c10Diff(m, g string) string {
 	ms, gs := strings.Split(m, ";"), strings.Split(g, ";")
@@ -704,6 +782,7 @@ func c10GenStale(rng *vh.Rand, c *c10Case) {
 }
 
 func runC10(a vh.Args, o *vh.Oracle, r *vh.Result) error {
+	desync.Log.SetOutput(io.Discard) // the mount node logs every failed read
 	r.Rule = "case = (blob built from explicit chunks incl. runs of null chunks, short zero chunks, repeated chunks, single chunk, empty blob; in-memory store failing at chosen call numbers or lacking a chunk; a script of ReadAt on goroutines 0-3 (offsets at chunk boundaries +-1, past the end, zero-length), WriteState, restarts with {state readable or not} x {cache kept, absent, resized} x {preload}, readers parked at the sparse.written yield point with a concurrent WriteState / reader / kill); non-trivial = more than two tokens; distinct by (blob, faults, script)"
 	if a.Replay != "" {
 		var c c10Case
@@ -732,6 +811,9 @@ func runC10(a vh.Args, o *vh.Oracle, r *vh.Result) error {
 	}
 	for i := 0; i < nSeq; i++ {
 		c := mk("seq")
+		if i%4 == 3 {
+			c.Kind = "mount"
+		}
 		c10GenSeq(rng, c, 1+rng.Intn([]int{4, 12, 40}[rng.Intn(3)]))
 		faults(c, len(c.Script)/3)
 		if err := c10Check(a, o, r, c); err != nil {
